@@ -332,6 +332,15 @@ UNITS = [
     U('model_string_ctor_copy', 'contracts/model_self.c', 'h_model_string_ctor_copy', ['vf_string_ctor_copy/contract_vf_string_ctor_copy'],
       ['C08', 'C13', 'C18'], loops=True, model_loops=True, unwind=4, timeout=900, level='PB', object_bits=12,
       bound='strings of at most 4096 characters'),
+    U('Header_roundtrip', 'contracts/bounded_header_roundtrip.c', 'h_Header_roundtrip', [], ['C01', 'C04', 'C05', 'C12', 'C13'], mode='bmc',
+      stubs={'c3d__readUint': 'stubv_readUint', 'c3d__readInt': 'stubv_readInt', 'c3d__readFloat': 'stubv_readFloat',
+             'c3d__readString': 'stubv_readString', 'vf_string_assign': 'stubv_string_assign'},
+      unwind=20, unwindset={'Header__write.0': 137, 'Header__write.5': 24, 'vf_stream_write.0': 6}, timeout=1800, level='PB', object_bits=11,
+      bound='complete unwinding (both functions have only constant-bound loops; unwinding assertions on); header words within their '
+            '16-bit cells; header not preceded by zero bytes',
+      props={'memsafe': ['C13'], 'ub': ['C13']},
+      assumes=['plain symbolic execution of the real Header::write, then of the real Header::read on the bytes written; read helpers = '
+               'value stubs (their proved contracts)']),
     U('Parameters_write', WR, 'h_Parameters_write', ['Parameters__write/contract_Parameters__write'],
       ['C01', 'C03', 'C13', 'C14', 'C10'], replace=['Group__write/contract_abs_Group__write'], unwind=5, loops=True, timeout=900,
       pre_unwind={'vf_stream_write.0': 5, 'Parameters__write.0': 3},
